@@ -178,6 +178,7 @@ func runC15(c *Ctx) {
 	c.R.Rule(rb, "exported operations return no raw slice/map/pointer aliasing receiver or argument storage", 1)
 	c.R.Rule(rc, "no library function outside init writes memory reachable from data.EmptyIntSet / data.EmptyIntMap", 1)
 	c.R.Rule("R15d map-entries-copied-whatever-their-value", "in package data no map entry is written under a condition on a value read from a map: clone/Inc/Filter decide by key membership only (a model map keeps entries whatever their value)", 2)
+	c.R.Rule("R15f search-index-is-not-membership", "where the index returned by sort.SearchInts / sort.Search decides a branch by being in range, the same decision also compares the element at that index with the value searched for (the index is an insertion point, not a membership answer)", 0)
 	c.R.Rule("R15e no-copy-into-an-empty-slice", "no copy() in package data has a destination that was just made with length 0 (copy transfers min(len(dst), len(src)) elements: such a call silently drops them)", 0)
 	a := c.Own()
 	if !a.Converged() {
@@ -207,6 +208,7 @@ func runC15(c *Ctx) {
 			continue
 		}
 		nfun++
+		c.ruleR15f("R15f search-index-is-not-membership", fn)
 		c.ruleR15e("R15e no-copy-into-an-empty-slice", fn)
 		c.ruleR15d("R15d map-entries-copied-whatever-their-value", fn)
 		c.judgeWrites(ra, fn, all)
@@ -544,6 +546,77 @@ func (c *Ctx) ruleR15e(rule string, fn *ssa.Function) {
 				}
 			}
 			c.R.Hold(rule, site, "destination not a freshly made zero-length slice")
+		}
+	}
+}
+
+// ruleR15f: sort.SearchInts(a, x) returns the insertion index. A block governed by `n < len(a)` (or its mirror) and
+// treating that as "x is in a" must also be governed by a comparison of a[n] with x.
+func (c *Ctx) ruleR15f(rule string, fn *ssa.Function) {
+	for _, call := range ssax.Calls(fn) {
+		cl, ok := call.(*ssa.Call)
+		if !ok {
+			continue
+		}
+		n := extCallName(cl)
+		if n != "sort.SearchInts" && n != "sort.Search" {
+			continue
+		}
+		site := c.name(fn) + " " + n + " @" + c.P.InstrPos(cl)
+		// blocks governed by a range test on the index
+		judged := false
+		for _, b := range fn.Blocks {
+			inRange, elemCmp := false, false
+			for _, cd := range ssax.DominatingConds(b) {
+				op, x, y, isCmp := ssax.CmpOp(cd.Val)
+				if !isCmp {
+					continue
+				}
+				if !cd.Truth {
+					op = ssax.Negate(op)
+				}
+				isLen := func(v ssa.Value) bool {
+					k, ok := v.(*ssa.Call)
+					if !ok {
+						return false
+					}
+					bi, isB := k.Call.Value.(*ssa.Builtin)
+					return isB && bi.Name() == "len"
+				}
+				if x == ssa.Value(cl) && isLen(y) && op == token.LSS || y == ssa.Value(cl) && isLen(x) && op == token.GTR {
+					inRange = true
+				}
+				// a[n] compared with something
+				for _, side := range []ssa.Value{x, y} {
+					if u, ok := side.(*ssa.UnOp); ok && u.Op == token.MUL {
+						if ia, ok := u.X.(*ssa.IndexAddr); ok && ia.Index == ssa.Value(cl) && (op == token.EQL || op == token.NEQ) {
+							elemCmp = true
+						}
+					}
+				}
+			}
+			if !inRange {
+				continue
+			}
+			// does the governed block act (write a map/slice or return) ?
+			acts := false
+			for _, in := range b.Instrs {
+				switch in.(type) {
+				case *ssa.MapUpdate, *ssa.Store, *ssa.Return:
+					acts = true
+				}
+			}
+			if !acts {
+				continue
+			}
+			judged = true
+			if !elemCmp {
+				c.R.Violation(rule, c.name(fn)+" search index used as membership", c.name(fn), c.P.InstrPos(cl), "the index returned by "+n+" is only tested for being in range before the code acts on it: that index is the insertion point, so every value not greater than the largest element passes as 'found'")
+				return
+			}
+		}
+		if judged {
+			c.R.Hold(rule, site, "range test paired with a comparison of the element found")
 		}
 	}
 }
